@@ -128,7 +128,7 @@ def token_sites():
                     grp = ast.unparse(vsrc.args[0]) if vsrc.args else ""
                     ok = ok and (f"match.start({grp})" in s_txt) and "match.end(" not in s_txt
                 obs.append(flow.ob(f"{m.split('.')[-1]}.{fn.name}@{call.lineno - fn.lineno}:start_index-from-match-offset", ok, f"Token(value={flow.dotted(val)[:40] if val is not None else '?'}, start_index={s_txt[:70]})", replay_schema="code", replay_extra={"code": REPLAY}))
-    obs.append(flow.ob("token-constructions-found", n >= 12, f"{n} Token(...) sites"))
+    obs.append(flow.ob("token-constructions-found", n >= 3, f"{n} Token(...) sites"))  # vacuity guard only: helpers may share a construction
     return obs
 
 
